@@ -22,11 +22,11 @@ M = [
  ("c07-getversioned-no-guard", "C07", "mutable_tree.go", "if err == nil && fastNode != nil && fastNode.GetVersionLastUpdatedAt() <= version {", "if err == nil && fastNode != nil && fastNode.GetVersionLastUpdatedAt() <= version+1 {"),
  ("c08-afterstart-le", "C08", "iterator.go", "afterStart := t.start == nil || bytes.Compare(t.start, node.key) < 0", "afterStart := t.start == nil || bytes.Compare(t.start, node.key) <= 0"),
  ("c08-unsaved-gt", "C08", "unsaved_fast_iterator.go", "isUnsavedNext = diskKeyStr >= nextUnsavedKey", "isUnsavedNext = diskKeyStr > nextUnsavedKey"),
- ("c09-dvf-from-plus1", "C09", "nodedb.go", "if err = ndb.traverseRange(nodeKeyPrefixFormat.KeyInt64(fromVersion), nodeKeyPrefixFormat.KeyInt64(latest+1)", "if err = ndb.traverseRange(nodeKeyPrefixFormat.KeyInt64(fromVersion), nodeKeyPrefixFormat.KeyInt64(latest)"),
+ ("c09-dvf-from-plus1", "C09", "nodedb.go", "if err = ndb.traverseRange(nodeKeyPrefixFormat.KeyInt64(newFromVersion), nodeKeyPrefixFormat.KeyInt64(latest+1)", "if err = ndb.traverseRange(nodeKeyPrefixFormat.KeyInt64(newFromVersion), nodeKeyPrefixFormat.KeyInt64(latest)"),
  ("c10-import-nonce-off", "C10", "import.go", "\t\tnonce: i.nonces[exportNode.Version] + 1,", "\t\tnonce: i.nonces[exportNode.Version] + 1 + uint32(exportNode.Height/3),"),
  ("c10-skip-validate", "C10", "import.go", "\tif err := node.validate(); err != nil {\n\t\treturn err\n\t}\n", ""),
  ("c11-getbyindex-both-children", "C11", "node.go", "\tif index < leftNode.size {\n\t\treturn leftNode.getByIndex(t, index)\n\t}\n", "\tif _, err := node.getRightNode(t); err != nil {\n\t\treturn nil, nil, err\n\t}\n\tif rn, _ := node.getRightNode(t); rn != nil && !rn.isLeaf() {\n\t\t_, _ = rn.getLeftNode(t)\n\t\t_, _ = rn.getRightNode(t)\n\t}\n\tif index < leftNode.size {\n\t\treturn leftNode.getByIndex(t, index)\n\t}\n"),
- ("c12-refroot-marker-kept", "C12", "nodedb.go", "\tif rootKey == nil || !bytes.Equal(rootKey, literalRootKey) {", "\tif rootKey == nil {"),
+ ("c12-refroot-marker-kept", "C12", "nodedb.go", "\tif err := ndb.deleteFromPruning(ndb.nodeKey(literalRootKey)); err != nil {\n\t\treturn err\n\t}\n\tfor _, k := range orphanKeys {", "\tif rootKey == nil || bytes.Equal(rootKey, literalRootKey) {\n\t\tif err := ndb.deleteFromPruning(ndb.nodeKey(literalRootKey)); err != nil {\n\t\t\treturn err\n\t\t}\n\t}\n\tfor _, k := range orphanKeys {"),
  ("c13-swap-size-height", "C13", "node.go", None, None),
  ("c14-first-version-off", "C14", "nodedb.go", "\t\tndb.resetFirstVersion(version + 1)\n\t}\n\n\treturn nil\n}\n\nfunc (ndb *nodeDB) DeleteFastNode", "\t\tndb.resetFirstVersion(version)\n\t}\n\n\treturn nil\n}\n\nfunc (ndb *nodeDB) DeleteFastNode"),
  ("c14-recommit-any-hash", "C14", "mutable_tree.go", "(existingRoot != nil && bytes.Equal(existingRoot.hash, newHash))", "(existingRoot != nil && tree.root != nil && existingRoot.size == tree.root.size)"),
